@@ -49,8 +49,11 @@ pub fn check_memo(ctx: &Ctx, g: Grammar, src: &str, caps: &[usize], st: &mut Sta
             evicting = true;
         }
         if r != base {
-            // attribution to listed finding K3: with the recursion flags in the key the two capacities agree
-            if ctx.findings.is_known("C17", "K3") {
+            // attribution to listed finding K3: an input that the unbounded table ACCEPTS is rejected (or parsed
+            // differently) with a bounded table, and with the recursion flags in the key the two capacities agree.
+            // (On the pinned tree every K3 divergence has this direction; an input that only a bounded table accepts
+            // is not covered by the listed finding.)
+            if ctx.findings.is_known("C17", "K3") && matches!(base, MemoOutcome::Accepted(_)) {
                 let (ra, _) = sv::raw_parse_budget(g, &text, Some(cap), true, Some(budget.saturating_mul(4)));
                 let (rb, _) = sv::raw_parse_budget(g, &text, None, true, Some(budget.saturating_mul(4)));
                 if ra == MemoOutcome::Budget || rb == MemoOutcome::Budget {
@@ -59,6 +62,7 @@ pub fn check_memo(ctx: &Ctx, g: Grammar, src: &str, caps: &[usize], st: &mut Sta
                 }
                 if ra == rb {
                     st.known("K3");
+                    st.class(&format!("K3 direction: unbounded {} / capacity {} {}", describe(&base), if cap <= 13 { "<=13" } else if cap <= 64 { "32-64" } else { ">=128" }, describe(&r)));
                     continue;
                 }
             }
@@ -102,7 +106,7 @@ impl Prop for C17 {
          sequential / nested `begin_keywords regions, library maps. Main band: memo capacities 1024, 256, 128 for every input and 64, 32 for inputs <= 600 bytes; small band: capacities \
          13, 8, 5, 3, 2, 1 for inputs <= 300 bytes. Oracle: the raw sv_parser / lib_parser result (acceptance and the whole tree by ==) is identical to the result with an unbounded table, \
          with the production memo key. Work is bounded deterministically by a memo-insert budget (300 x the unbounded run + 50 000 inserts); a run that exhausts it is tallied as inconclusive. A \
-         divergence is attributed to listed finding K3 only if capacity c and unbounded agree once the recursion flags are part of the key; otherwise it is a violation. Non-trivial: inserts > capacity \
+         divergence is attributed to listed finding K3 only if the unbounded table accepts the input and capacity c and unbounded agree once the recursion flags are part of the key; otherwise it is a violation. Non-trivial: inserts > capacity \
          (evictions certainly happened) and hits > 0 (from the hook counters); distinct by digest of (grammar, capacities, text)."
             .into()
     }
